@@ -201,7 +201,7 @@ def run_chunk(chunk):
             continue
         seen.add(old_text)
         st.state(text, old_text)
-        succ = explore_state(st, pat, state, old_text, has_cal)
+        succ = explore_state(st, pat, state, old_text, has_cal, malformed=len(seen) <= 2)
         if dep < depth:
             for t in succ[:12]:
                 ns = M.recognise(pat.tree, t)
@@ -211,7 +211,43 @@ def run_chunk(chunk):
     return st
 
 
-def explore_state(st, pat, state, old_text, has_cal):
+MALFORMED = [
+    ["--date", "2021-13-01"], ["--date", "2021-02-30"], ["--date", "garbage"], ["--date", "20210301"], ["--date", "2021-03-01T00:00"],
+    ["--tag", "gamma"], ["--tag", "RC"], ["--tag", ""], ["--tag", "rc1"], ["--pin-date", "--date", "2031-01-01"],
+    ["--frobnicate"], ["--set-version"], ["--major", "--date"], ["--tag"],
+]
+
+
+def malformed_flags(st, pat, old_text, files):
+    """Flag VALUES outside the documented domains (dates that do not exist, unknown tags, conflicting or dangling options), through the
+    real argv parser: whatever the exit status, the C01 alternative must hold - exit 0 with a matching, greater version, or
+    non-zero with every file unchanged."""
+    for extra in MALFORMED:
+        for cmd in ("test", "update --dry", "update"):
+            world.write_tree({k: v for k, v in files.items() if world.read_tree(".").get(k) != v})
+            if cmd == "test":
+                argv = ["test", old_text, pat.text] if not old_text.startswith("-") else ["test", "--", old_text, pat.text]
+                argv = [argv[0]] + extra + argv[1:] if "--" in argv else argv + extra
+            else:
+                argv = ["update", "--no-fetch"] + (["--dry"] if "dry" in cmd else []) + ["--patch"] + extra
+            o = world.cli(*argv)
+            after = world.read_tree(".")
+            st.evaluations += 1
+            st.transitions += 1
+            case = {"pattern": pat.text, "old": old_text, "argv": argv, "label": "malformed-flag:" + extra[0], "cmd": cmd}
+            st.observe((old_text, argv, o.exit, o.new_version))
+            if o.exit == 0 or o.new_version is None:
+                invariant(st, pat, old_text, o, cmd, case)
+            else:
+                st.validated += 1
+                st.outcomes[f"{cmd}:refused"] += 1
+            if (o.exit != 0 or "dry" in cmd or cmd == "test") and after != files:
+                st.violation(f"C01:files-changed-by-refused-or-dry-command:malformed-flag:{extra[0]}", case,
+                             {"exit": o.exit, "changed": [k for k in after if after[k] != files.get(k)]})
+    world.write_tree({k: v for k, v in files.items() if world.read_tree(".").get(k) != v})
+
+
+def explore_state(st, pat, state, old_text, has_cal, malformed=False):
     base = grammar.seed_date(state)
     succ = []
     dates = TEST_DATES if has_cal else ("pin", "same")
@@ -241,6 +277,8 @@ def explore_state(st, pat, state, old_text, has_cal):
         events.append((none_rev, target, "set-version:" + lbl.split(":")[0]))
     for rev, target, label in events:
         three_ways(st, pat, old_text, files, rev, target, label)
+    if malformed:
+        malformed_flags(st, pat, old_text, files)
     if old_text in ("1.2.3", "2020.1001", "v202006.1001"):
         st.sample({"pattern": pat.text, "state": old_text, "set_version_targets": [t for (_r, t, _l) in events if t is not None][:12]})
     return succ
@@ -316,6 +354,14 @@ def replay(case, st):
         st.merge(run_tags_chunk(("@tags", case["tags_case"], pos, 5)))
         return
     pat = grammar.Pat(M.parse_pattern(case["pattern"]))
+    if "argv" in case:
+        d = pool.fresh_dir("c01r")
+        os.chdir(d)
+        files = project_files(pat, case["old"])
+        world.write_tree(files)
+        malformed_flags(st, pat, case["old"], files)
+        os.chdir("/")
+        return
     args = case["args"]
     rev = {"major": "--major" in args, "minor": "--minor" in args, "patch": "--patch" in args,
            "tag": args[args.index("--tag") + 1] if "--tag" in args else None, "tag_num": "--tag-num" in args,
